@@ -287,3 +287,162 @@ func init() {
 		c.Check(n == 1, fk+" :: value loop found", w.pos(f.Pos()), "1", fmt.Sprintf("%d", n))
 	})
 }
+
+func init() {
+	// ------------------------------------------------------------------ C11.R12
+	// F82: the handshake applies a stored-but-unexecuted block with a stub evidence pool; the real pool is
+	// opened afterwards. Whoever opens it reconciles it with the last block.
+	register("C11", "R12", "K2", "the node marks the evidence of the last block committed when it opens the evidence pool (a block replayed by the handshake never reached the pool)", 4, func(c *Ctx) {
+		w := c.W
+		n := 0
+		for _, f := range w.FuncsInPkg("node") {
+			for _, np := range w.callsTo(f, "evidence#NewPool") {
+				n++
+				fk := funcKey(f)
+				pool := w.expr(np.(ssa.Value)) + "#0"
+				marks := w.callsMatching(f, `^`+regexp.QuoteMeta(pool)+`\.MarkCommitted\(`)
+				if !c.Check(len(marks) == 1, fk+" :: reconciles the pool with the last block", w.ipos(np), "pool.MarkCommitted(last block's evidence)", "the pool is handed out without the evidence of the last stored block being marked committed: after a stop between saving and executing a block its evidence is proposed and executed a second time") {
+					continue
+				}
+				mk := marks[0]
+				arg := w.expr(callArgs(mk)[0])
+				want := regexp.MustCompile(`^\w+\.LoadBlock\(` + regexp.QuoteMeta(pool) + `\.State\(\)\.LastBlockHeight\)\.Evidence\.Evidence$`)
+				c.Check(want.MatchString(arg), fk+" :: the evidence marked is that of the block at the pool's state height", w.ipos(mk), arg, "MarkCommitted is given "+arg)
+				// every exit that hands the pool out passes it, unless there is no such block
+				blocked := map[Edge]bool{}
+				for _, ea := range condEdges(f) {
+					if ea.A.Kind == "nil" && strings.Contains(w.atomStr(ea.A), ".LoadBlock(") {
+						blocked[ea.E] = true
+					}
+				}
+				for _, r := range returnsOf(f) {
+					ret := r.(*ssa.Return)
+					hands := false
+					for _, res := range ret.Results {
+						if w.expr(res) == pool {
+							hands = true
+						}
+					}
+					if !hands {
+						continue
+					}
+					reach, path := reachFromEntry(f, blocked, func(in ssa.Instruction) bool { return in == ssa.Instruction(mk.(*ssa.Call)) }, ret)
+					c.Check(!reach, fk+" :: hand out the pool", w.ipos(ret), "behind the reconciliation", "the pool is returned on a path that skips MarkCommitted although the block exists: "+pathStr(w, path))
+				}
+			}
+		}
+		c.Check(n >= 1, "node :: evidence pool construction found", "node/node.go", ">= 1", fmt.Sprintf("%d", n))
+		if f := c.fn("evidence", "Pool.MarkCommitted"); f != nil {
+			fk := funcKey(f)
+			calls := w.callsTo(f, "evidence#Pool.markEvidenceAsCommitted")
+			c.Check(len(calls) == 1, fk+" :: marks the given evidence", w.pos(f.Pos()), "markEvidenceAsCommitted", fmt.Sprintf("%d calls", len(calls)))
+			for _, call := range calls {
+				c.Check(w.expr(callArgs(call)[0]) == paramName(f, 1), fk+" :: marks exactly the list it was given", w.ipos(call), paramName(f, 1), w.expr(callArgs(call)[0]))
+				ok, why := w.holdsLock(f, call, regexp.MustCompile(`\.admitMtx$`), 0)
+				c.Check(ok, fk+" :: under the admission mutex", w.ipos(call), "admitMtx held", why)
+			}
+		}
+	})
+
+	// ------------------------------------------------------------------ C12.R13
+	// F83: the running gas total can exceed MaxInt64 when the limit is above MaxInt64/2; a wrapped sum is
+	// negative and passes `total > limit`. Decided: the sum is compared with its previous value (the shape of
+	// a wrap test); what the comparison then leads to is not followed.
+	register("C12", "R13", "K10", "reaping by gas tests the running gas total for wrap-around (both mempool versions)", 2, func(c *Ctx) {
+		w := c.W
+		n := 0
+		for _, impl := range [][2]string{{"mempool/v0", "CListMempool.ReapMaxBytesMaxGas"}, {"mempool/v1", "TxMempool.ReapMaxBytesMaxGas"}} {
+			f := c.fn(impl[0], impl[1])
+			if f == nil {
+				continue
+			}
+			fk := funcKey(f)
+			var acc *accumulator
+			for _, a := range accumulators(f) {
+				if strings.HasSuffix(w.expr(a.y), ".gasWanted") {
+					a := a
+					acc = &a
+				}
+			}
+			if !c.Check(acc != nil, fk+" :: gas total found", w.pos(f.Pos()), "total += gasWanted", "no accumulation of gasWanted found") {
+				continue
+			}
+			n++
+			sum, prev := w.expr(acc.add), w.expr(acc.phi)
+			found := false
+			for _, b := range f.Blocks {
+				for _, in := range b.Instrs {
+					bo, ok := in.(*ssa.BinOp)
+					if !ok {
+						continue
+					}
+					x, y := w.expr(bo.X), w.expr(bo.Y)
+					if (bo.Op == token.LSS && x == sum && y == prev) || (bo.Op == token.GTR && x == prev && y == sum) {
+						if len(*bo.Referrers()) > 0 {
+							found = true
+						}
+					}
+				}
+			}
+			c.Check(found, fk+" :: the gas total is tested for wrap-around", w.ipos(acc.add), "sum < previous total", "total + gasWanted is only compared with the limit: above MaxInt64/2 the sum of two admissible values wraps to a negative number and every transaction is reaped")
+		}
+		c.Check(n == 2, "reap functions with a gas total", "mempool/", "2", fmt.Sprintf("%d", n))
+	})
+
+	// ------------------------------------------------------------------ C12.R14
+	// F84: Flush empties pool, index, cache and byte counter in several steps. It must exclude the step that
+	// inserts a checked transaction (and, in v0, notifies behind it): it holds, exclusively, every mutex that
+	// is held where a transaction is inserted — and a function that mutates holds no read lock.
+	register("C12", "R14", "K5+K8", "Flush excludes the insertion of checked transactions: it takes exclusively every mutex held at an insertion site", 4, func(c *Ctx) {
+		w := c.W
+		n := 0
+		for _, impl := range [][3]string{{"mempool/v0", "CListMempool", "addTx"}, {"mempool/v1", "TxMempool", "insertTx"}} {
+			fl := c.fn(impl[0], impl[1]+".Flush")
+			if fl == nil {
+				continue
+			}
+			fk := funcKey(fl)
+			need := map[string]bool{}
+			sites := 0
+			for _, s := range w.allCallsTo(impl[0] + "#" + impl[1] + "." + impl[2]) {
+				if relPkg(s.Fn) != impl[0] {
+					continue
+				}
+				sites++
+				for _, l := range w.computeLocks(s.Fn).heldAt(s.Instr) {
+					if !strings.HasSuffix(l, "!") {
+						need[l[strings.LastIndex(l, ".")+1:]] = true
+					}
+				}
+			}
+			c.Check(sites >= 1 && len(need) >= 1, fk+" :: insertion sites and their mutexes found", w.pos(fl.Pos()), fmt.Sprintf("%d sites, mutexes %v", sites, sortedKeys(need)), "no insertion site under a mutex found")
+			excl := map[string]bool{}
+			for _, in := range rawCallInstrs(fl) {
+				d, ok := describeCallee(in)
+				if !ok || !strings.HasSuffix(d.Recv, "Mutex") {
+					continue
+				}
+				if d.Name == "RLock" {
+					c.Fail(fk+" :: mutates under a read lock", w.ipos(in), "Flush empties the pool while holding only the read side of "+mutexField(w, in)+": it runs concurrently with every other reader-side holder (CheckTx, reaping)")
+				}
+				if d.Name == "Lock" {
+					if _, isCall := in.(*ssa.Call); isCall {
+						excl[mutexField(w, in)] = true
+					}
+				}
+			}
+			for _, m := range sortedKeys(need) {
+				n++
+				c.Check(excl[m], fk+" :: holds "+m+" exclusively", w.pos(fl.Pos()), "Lock()", "Flush does not take "+m+", under which checked transactions are inserted: an insertion between its steps leaves counters and list disagreeing (and, in v0, a submission panics on an emptied pool)")
+			}
+			// and it is held from before the first step to the end (released by defer only)
+			for _, in := range rawCallInstrs(fl) {
+				if d, ok := describeCallee(in); ok && strings.HasSuffix(d.Recv, "Mutex") && d.Name == "Unlock" && need[mutexField(w, in)] {
+					_, isDefer := in.(*ssa.Defer)
+					c.Check(isDefer, fk+" :: keeps "+mutexField(w, in)+" to the end", w.ipos(in), "deferred Unlock", "released before Flush is done")
+				}
+			}
+		}
+		c.Check(n >= 2, "Flush obligations found", "mempool/", ">= 2", fmt.Sprintf("%d", n))
+	})
+}
